@@ -48,11 +48,11 @@ class Rule:
                 if isinstance(doc, list):
                     doc = {"description": doc, "examples": []}
 
-            elif isinstance(doc["description"], str):
-                doc["description"] = [doc["description"]]
-
             if "description" not in doc:
                 doc["description"] = []
+
+            elif isinstance(doc["description"], str):
+                doc["description"] = [doc["description"]]
 
             if "examples" not in doc:
                 doc["examples"] = []
